@@ -17,6 +17,9 @@ RULE = (
 RULE += (
     ' Also CALLARG (14 expressions whose call arguments are calls, in main code and inside a function) under all 64 vectors.'
 )
+RULE += (
+    " Also a NAMECLASH subset (device names and hashed strings that contain '#' or the name of a function, next to jump targets)."
+)
 ASSUME = [
     "reference IC10 machine M and reference executor R as in C01",
     "two option vectors whose comment-stripped instruction texts are identical behave identically (they are the same program)",
@@ -48,6 +51,11 @@ def build_cases(tier):
         cases += common.split_call_case(c, v64)
     for c in F.func3(tier)[:: (4 if tier == "quick" else 1)]:
         cases.append(dict(c, variants=v64))
+    # strings that contain '#' or the name of a function, next to jump targets: remove_labels / compact / comment options must not
+    # change what such a program does
+    for c in F.names_clash():
+        if c["names"][0] in ("pump", "Setting") and (c["use"].startswith("hash-") or c["use"] == "devname"):
+            cases.append(dict(c, variants=v64))
     # calls whose arguments are calls: the outer call's argument slots / pushes around the inner call
     for c in F.callarg(tier):
         cases += common.split_call_case(c, v64)
